@@ -297,11 +297,11 @@ theorem addSeconds_error_iff (t : Instant) (n : Int) (ht : t.valid) :
 theorem addSeconds_zero (t : Instant) (ht : t.valid) : addSeconds t 0 = .ok t := by
   rw [addSeconds_ok_iff t t 0 ht]; exact ⟨ht, by omega, rfl⟩
 
-/-- seconds since ordinal 0 of the UTC reading: a naive datetime is taken as UTC, an aware one is `o` minutes
+/-- seconds since ordinal 0 of the UTC reading: a naive datetime is taken as UTC, an aware one is `o` seconds
     ahead of UTC -/
 def utcAbs (t : Instant) : Option Int → Int
   | none => t.abs
-  | some o => t.abs - o * 60
+  | some o => t.abs - o
 
 /-- **toUtc_spec.** `astimezone(UTC)` succeeds with `u` iff `u` is the valid instant with the same microsecond that
     designates the same moment. -/
@@ -318,13 +318,13 @@ theorem toUtc_ok_iff (t u : Instant) (off : Option Int) (ht : t.valid) :
       apply Instant.ext' <;> omega
   | some o =>
     simp only [toUtc, utcAbs, bind, Except.bind]
-    cases h1 : addSeconds t (-(o * 60)) with
+    cases h1 : addSeconds t (-o) with
     | error e =>
       simp only
       constructor
       · intro h; cases h
       · rintro ⟨hv, ha, hu⟩
-        have := (addSeconds_ok_iff t u (-(o * 60)) ht).2 ⟨hv, by omega, hu⟩
+        have := (addSeconds_ok_iff t u (-o) ht).2 ⟨hv, by omega, hu⟩
         rw [this] at h1; cases h1
     | ok w =>
       obtain ⟨hw, hwa, hwu⟩ := (addSeconds_ok_iff t w _ ht).1 h1
@@ -342,12 +342,56 @@ theorem toUtc_error (t : Instant) (off : Option Int) (ht : t.valid) (e : PyErr) 
   | none => cases h
   | some o =>
     simp only [toUtc, bind, Except.bind] at h
-    cases h1 : addSeconds t (-(o * 60)) with
+    cases h1 : addSeconds t (-o) with
     | error e' => rw [h1] at h; cases h; exact addSeconds_error _ _ _ h1
     | ok w =>
       rw [h1] at h
       simp only [addSeconds_zero w ((addSeconds_ok_iff t w _ ht).1 h1).1] at h
       cases h
+
+/-- the moments a `datetime` can designate (seconds since ordinal 0): 0001-01-01T00:00:00 .. 9999-12-31T23:59:59 -/
+def representable (a : Int) : Prop := 86400 ≤ a ∧ a < (maxOrdinal + 1) * 86400
+
+theorem valid_representable (t : Instant) (ht : t.valid) : representable t.abs := by
+  obtain ⟨a1, a2, a3, a4⟩ := ht
+  unfold representable Instant.abs maxOrdinal at *; omega
+
+/-- **toUtc_spec (failure).** `astimezone(UTC)` raises exactly when the moment designated lies outside the years
+    1..9999, and then `OverflowError`. -/
+theorem toUtc_error_iff (t : Instant) (off : Option Int) (ht : t.valid) (e : PyErr) :
+    toUtc t off = .error e ↔ e = .overflowError ∧ ¬ representable (utcAbs t off) := by
+  constructor
+  · intro h
+    have he := toUtc_error t off ht e h
+    refine ⟨he, fun hr => ?_⟩
+    subst he
+    cases off with
+    | none => cases h
+    | some o =>
+      simp only [toUtc, bind, Except.bind] at h
+      cases h1 : addSeconds t (-o) with
+      | error e' =>
+        have := addSeconds_error _ _ _ h1
+        subst this
+        have := (addSeconds_error_iff t (-o) ht).1 h1
+        simp only [representable, utcAbs] at hr; unfold maxOrdinal at *; omega
+      | ok w =>
+        rw [h1] at h
+        simp only [addSeconds_zero w ((addSeconds_ok_iff t w _ ht).1 h1).1] at h
+        cases h
+  · rintro ⟨rfl, hr⟩
+    cases h : toUtc t off with
+    | error e' => rw [toUtc_error t off ht e' h]
+    | ok u =>
+      exfalso
+      obtain ⟨hv, ha, _⟩ := (toUtc_ok_iff t u off ht).1 h
+      exact hr (ha ▸ valid_representable u hv)
+
+/-- a naive reading and a reading in UTC (offset 0) are their own UTC reading -/
+theorem toUtc_id (t : Instant) (ht : t.valid) (off : Option Int) (ho : off = none ∨ off = some 0) : toUtc t off = .ok t := by
+  rw [toUtc_ok_iff t t off ht]
+  refine ⟨ht, ?_, rfl⟩
+  rcases ho with rfl | rfl <;> simp [utcAbs]
 
 /-! ### `replace(year=…)` -/
 
